@@ -26,19 +26,19 @@ TReset ==
     /\ phase' = "idle" /\ tries' = 0 /\ content' = NoContent
     /\ wire' = NoNonce /\ answer' = NoAnswer /\ newest' = NoNonce
     /\ sentNonces' = {} /\ polls' = 0 /\ pollUrl' = "none" /\ nreq' = 0
-    /\ acctKey' = <<>> /\ retryDue' = FALSE /\ caller' = "none" /\ prev' = NoPrev /\ bad' = {}
+    /\ acctKey' = <<>> /\ retryDue' = FALSE /\ caller' = "none" /\ prev' = NoPrev /\ getFailed' = FALSE /\ bad' = {}
 
 TClientReset ==
     /\ Is("ClientReset") /\ Adv
     /\ cell' = NoNonce /\ phase' = "idle" /\ tries' = 0 /\ content' = NoContent
     /\ wire' = NoNonce /\ answer' = NoAnswer /\ newest' = NoNonce
     /\ sentNonces' = {} /\ polls' = 0 /\ pollUrl' = "none"
-    /\ UNCHANGED <<issued, consumed, nreq, acctKey>> /\ retryDue' = FALSE /\ caller' = "none" /\ prev' = NoPrev /\ bad' = {}
+    /\ UNCHANGED <<issued, consumed, nreq, acctKey>> /\ retryDue' = FALSE /\ caller' = "none" /\ prev' = NoPrev /\ getFailed' = FALSE /\ bad' = {}
 
 TBegin == Is("PostBegin") /\ Adv /\ BeginAs(Ev.poll, Ev.url, Ev.who)
 TOver == Is("AttemptOver") /\ Adv /\ AttemptOver(Ev.who)
 TSend == Is("HttpPost") /\ Adv /\ Send(Ev.nonce, Ev.cell)
-TCaGet == Is("CaGet") /\ Adv /\ CaGet(Ev.rnonce)
+TCaGet == Is("CaGet") /\ Adv /\ CaGet(Ev.rnonce, Ev.kind = "newNonce" /\ Ev.ans \in {"error", "nonproblem"})
 TCaPost ==
     /\ Is("CaPost") /\ Adv
     /\ IF Ev.delivered
